@@ -27,9 +27,9 @@ def gen_cases(ctx, n):
     cases = []
     rng = ctx.rng
     while len(cases) < n:
-        flat = rng.chance(1, 6)
+        flat = rng.chance(1, 4)
         if flat:         # nearly horizontal edges crossed by steep ones, around the origin
-            S, C, kinds = polys.gen_flat_case(rng)
+            S, C, kinds = polys.gen_flat_precise_case(rng) if rng.chance(2, 3) else polys.gen_flat_case(rng)
         else:
             S, C, kinds = polys.gen_genpos_case(rng)
         reg = polys.REGIMES[len(cases) % len(polys.REGIMES)] if not rng.chance(1, 4) else polys.REGIMES[0]
